@@ -68,6 +68,8 @@ Vals(T) ==
          LET full == [i \in 1..Len(T.fs) |-> Two(T.fs[i].t)[1]]
              alt == [i \in 1..Len(T.fs) |-> IF i % 2 = 1 THEN Null0 ELSE Two(T.fs[i].t)[Len(Two(T.fs[i].t))]] IN
          << [k |-> "udt", vs |-> full], [k |-> "udt", vs |-> alt], [k |-> "udt", vs |-> SubSeq(full, 1, Len(full) - 1)] >>
+         \* a value that does not list a field in the middle (dynamic carrier only): that slot is null, the later ones keep their place
+         \o (IF Len(T.fs) >= 3 THEN << [k |-> "udt", vs |-> [full EXCEPT ![2] = [k |-> "absent"]]], [k |-> "udt", vs |-> [full EXCEPT ![1] = [k |-> "absent"]]] >> ELSE << >>)
     [] T.k = "vector" ->
          LET e == Two(T.e)
              z == ZeroLen(T.e) IN      \* a zero-length element (empty string / blob) in first and in last position
